@@ -27,6 +27,7 @@ sys.path.insert(0, HERE)
 import dotleg  # noqa: E402  (readers created with SQFS_DIR_READER_DOT_ENTRIES: props/C10/dotleg.py)
 import sizeleg  # noqa: E402  (images with valid streams that expand to another size than expected: props/C10/sizeleg.py)
 import errleg  # noqa: E402  (hostile streams aimed at each decoder's error exits + repeated failing queries: props/C10/errleg.py)
+import lowdirleg  # noqa: E402  (the low-level readdir API with a reused cursor object: props/C10/lowdirleg.py)
 import xfineleg  # noqa: E402  (the fine-grained xattr reader API: crafted xattr sections + op generators: props/C10/xfineleg.py)
 LEVEL = "proof"
 ENV = dict(os.environ, ASAN_OPTIONS="detect_leaks=0:allocator_may_return_null=1:max_allocation_size_mb=3000",
@@ -426,6 +427,8 @@ def gen_ops(rnd, f, n, meta_only=False, with_L=True):
             sl = rnd.randrange(4)
             return ["DO %d %d" % (sl, rnd.choice(dirs)), "DR %d %d" % (sl, rnd.choice([1, 2, 5]))]
         if r < 0.48:
+            if rnd.random() < 0.5:     # sqfs_readdir_state_init + sqfs_meta_reader_readdir on a caller-owned, reused cursor object
+                return lowdirleg.snippet(rnd, dirs, refs[:6])
             return ["DR %d %d" % (rnd.randrange(4), rnd.choice([1, 3, 1000]))]
         if r < 0.52 and f["paths"]:
             p = rnd.choice(f["paths"])
@@ -711,7 +714,7 @@ def classify(detail_ops):
     fam = {"MQ": "meta", "MS": "meta", "MR": "meta", "MP": "meta", "I": "inode", "DL": "dir", "DO": "dir", "DR": "dir",
            "P": "path", "F": "data", "B": "data", "G": "frag", "T": "stream", "TO": "stream", "TR": "stream",
            "A": "data", "RF": "data", "RB": "data", "RG": "frag", "RT": "stream", "RTO": "stream", "X": "xattr", "XK": "xattr", "XD": "xattr", "U": "id", "L": "fragtable",
-           "XA": "xattr", "XG": "xattr", "XGR": "xattr", "XS": "xattr", "XRK": "xattr", "XRV": "xattr", "XRP": "xattr", "XL": "xattr", "XC": "xattr"}.get(last, last)
+           "RI": "lowdir", "RR": "lowdir", "XA": "xattr", "XG": "xattr", "XGR": "xattr", "XS": "xattr", "XRK": "xattr", "XRV": "xattr", "XRP": "xattr", "XL": "xattr", "XC": "xattr"}.get(last, last)
     return fam
 
 
@@ -745,7 +748,7 @@ def run(ctx):
         core.prepare_proofs(ctx)
     h = B.compile_harness(info, [os.path.join(HERE, "h_reader.c")], "h_reader_c10")
     with core.Lock("coq"):     # everything the extraction needs, against the current Constants.vo
-        core.coq_make(["C10/ApiModel.vo", "C10/DataModel.vo", "C10/ClientModel.vo", "C10/MetaModel.vo", "C10/DotModel.vo", "C10/XFineModel.vo"])
+        core.coq_make(["C10/ApiModel.vo", "C10/DataModel.vo", "C10/ClientModel.vo", "C10/MetaModel.vo", "C10/DotModel.vo", "C10/XFineModel.vo", "C10/ReaddirLowModel.vo"])
     # the tools of the DOT_ENTRIES leg are built concurrently with the main model driver
     from concurrent.futures import ThreadPoolExecutor as _TPE
     _dot_pool = _TPE(max_workers=1)
@@ -759,7 +762,7 @@ def run(ctx):
         except Exception as e:   # model does not extract/build: the tie is broken, search still runs
             if attempt == 1:     # a concurrently running check may have rebuilt Gen/Constants.vo under us: rebuild once
                 with core.Lock("coq"):
-                    core.coq_make(["C10/ApiModel.vo", "C10/DataModel.vo", "C10/ClientModel.vo", "C10/MetaModel.vo", "C10/DotModel.vo", "C10/XFineModel.vo"])
+                    core.coq_make(["C10/ApiModel.vo", "C10/DataModel.vo", "C10/ClientModel.vo", "C10/MetaModel.vo", "C10/DotModel.vo", "C10/XFineModel.vo", "C10/ReaddirLowModel.vo"])
                 continue
             ctx.tie_broken.append("model driver: %r" % (e,))
     ctx.trusted += ["props/C10/h_reader.c (op executor, long-lived and fresh mode), props/C10/driver.ml + stubs.c (I/O glue; "
@@ -772,7 +775,10 @@ def run(ctx):
                     "lz4 token sequences, zstd frame headers written by hand around real blocks; Python zlib/lzma, system libzstd via ctypes)",
                     "props/C10/gen_c10.c: translator meta_reader.c/block.h -> coq/C10/GenC10.v (regenerated on every run)",
                     "props/C10/xfineleg.py (writer of the xattr section of the crafted image; op generators of the fine-grained xattr API); "
-                    "h_reader.c's bookkeeping of the cursor-defining prefix (xpre) that the fresh mode replays"]
+                    "h_reader.c's bookkeeping of the cursor-defining prefix (xpre) that the fresh mode replays",
+                    "props/C10/lowdirleg.py (Builder image with directories of 0..600 entries / 81 header runs and the op lists of the low-level "
+                    "readdir API); h_reader.c's treatment of caller-owned cursor objects (0xA5 bytes before first use and never cleared in long "
+                    "mode, zeroed before every init in fresh mode) and its own meta reader on the directory table"]
     ctx.assumptions += ["fine-grained xattr reader API: what include/sqfs/xattr_reader.h documents as reader state is one position indicator "
                         "(set by seek_kv, advanced by read_key/read_value/read, read_all = get_desc + seek_kv + reads); get_desc and sqfs_copy "
                         "are pure with respect to it; a re-load with the same super block yields a reader equivalent to a new one",
@@ -856,6 +862,31 @@ def run(ctx):
                 pd = os.path.join(ctx.scratch, "xfine-dmg%d.sqfs" % k)
                 open(pd, "wb").write(dd)
                 cases.append(Case("xfine-dmg%d" % k, pd, hdr + xfineleg.fine_ops(rnd, xinfo["nsets"], 100 if quick else 200, xinfo, other, agree=False), "damaged", alloc_mb=16))
+        # --- the low-level readdir API: one caller-owned cursor object re-initialised after scans abandoned inside a header
+        #     run / at a run boundary / at the end; directories of 0, 1, 2, 255, 256, 257, 600 entries and one with 81 runs ---
+        try:
+            ldata, linfo = lowdirleg.build_image(rnd)
+        except Exception as e:
+            ldata = None
+            ctx.violation("machinery:lowdir-leg", "cannot build the directory image: %r" % (e,), dict(kind="machinery", detail=repr(e)),
+                          no_input=True)
+        if ldata is not None:
+            p = os.path.join(ctx.scratch, "lowdir.sqfs")
+            open(p, "wb").write(ldata)
+            f = image_facts(ldata)
+            hdr = gen_ops(rnd, f, 3)[:3]
+            other = lambda: [o for o in gen_ops(rnd, f, 5, with_L=False)[3:] if not o.startswith("M ")][:3]   # noqa: E731
+            for k, ops in enumerate(lowdirleg.corpus_cases(linfo)):
+                cases.append(Case("lowdir-c%d" % k, p, hdr + ops, "lowdir"))
+            for k in range(6 if quick else 30):
+                cases.append(Case("lowdir-a%d" % k, p, hdr + lowdirleg.aimed_ops(rnd, linfo, 120 if quick else 300, other), "lowdir"))
+            s = f["super"]
+            for k in range(6 if quick else 40):
+                dd = damage_bytes(ldata, rnd, s["dir_table_start"], s["frag_table_start"] if s["frag_table_start"] < len(ldata) else len(ldata),
+                                  rnd.choice([1, 2, 4]))
+                pd = os.path.join(ctx.scratch, "lowdir-dmg%d.sqfs" % k)
+                open(pd, "wb").write(dd)
+                cases.append(Case("lowdir-dmg%d" % k, pd, hdr + lowdirleg.aimed_ops(rnd, linfo, 80 if quick else 150), "damaged"))
         ctx.log("crafted images ready")
         # --- real images ---
         combos = [("gzip", 4096, True), ("xz", 8192, False), ("lz4", 4096, False), ("zstd", 16384, True)]
@@ -1059,7 +1090,13 @@ def run(ctx):
                             "(xz dictionary above the memory limit, check ids, trailing bytes; gzip mid-block truncation, preset dictionary, bad "
                             "block type / distance / window; lz4 overruns; zstd window descriptors up to the largest, dictionary id, content size, "
                             "checksum, skippable frames) as only / middle data block, fragment block and metadata block; every failing query two and "
-                            "three times in a row, after good blocks, after other failures; good blocks re-read after each failure.  General op "
+                            "three times in a row, after good blocks, after other failures; good blocks re-read after each failure.  "
+                            "Low-level readdir API (props/C10/lowdirleg.py): sqfs_readdir_state_init + sqfs_meta_reader_readdir on caller-owned "
+                            "cursor objects (4 slots, 0xA5 bytes before first use) and a caller-owned meta reader; every ordered pair of "
+                            "directories (0/1/2/255/256/257/600 entries, 81 header runs, extreme inode differences) through one object with the "
+                            "first scan abandoned after 1 entry / one before a run boundary / exactly at it, random stops in several calls, "
+                            "failed inits in between, alternating objects; fresh side = zeroed object + new meta reader, model side = "
+                            "ReaddirLowModel.readdir_state_init (old content as argument) / readdir_low_many; also in the general op lists.  General op "
                             "lists repeat a query immediately (12 %%) and later (8 %%)"
                             % (ctx.seed, "" if ctx.tier == "quick" else "/lzma"))
     ctx.add_samples(samples)
